@@ -244,6 +244,7 @@ def rule_profile(ck, units):
             f = inline.expand(f, inline.same_class_helper(keep=('factorize',)))     # the two passes may live in private members
             loc = locate(f)
             prof, store = {}, {}
+            prof_guards, store_guards = [], []
             for n in f.nodes.values():
                 if n['k'] == 'bin' and n['op'] == '=' and n['i'] in loc:
                     lhs = unwrap(n['x'])
@@ -258,12 +259,26 @@ def rule_profile(ck, units):
                     if cases is None:
                         continue
                     (prof if nm == 'ptr' else store).setdefault(nm, set()).update(cases)
+                    # value guards (not index comparisons) around the statement: `if (!math::is_zero(v))`
+                    import c01
+                    vg = frozenset(g for g in c01.guards_of(f, n) if not any(op in g for op in ('<', '>', '==')))
+                    (prof_guards if nm == 'ptr' else store_guards).append((n, vg))
             if not store:
                 continue
             done.add(f.line)
             need = set().union(*store.values()) - {'=='}
             have = set().union(*prof.values()) if prof else set()
             missing = sorted(need - have)
+            # an entry the profile pass skips (a stored zero) must be skipped by the copy pass as well: the value guards common to all
+            # profile statements guard every store
+            common = frozenset.intersection(*[g for _, g in prof_guards]) if prof_guards else frozenset()
+            unguarded = [(n, common - g) for n, g in store_guards if common - g]
+            if unguarded and not missing:
+                n0, lacking = unguarded[0]
+                ck.ob('profile-covers-stores', 'amgcl::solver::skyline_lu::ctor', f.where(n0), False,
+                      'the profile pass raises the row / column height only under %s, the copy pass stores at %s without that guard: an entry the profile ignores is written outside '
+                      'the skyline (into another column / row)' % (sorted(lacking), f.where(n0)))
+                continue
             ck.ob('profile-covers-stores', 'amgcl::solver::skyline_lu::ctor', f.where(), not missing and bool(prof),
                   '' if (not missing and prof) else 'entries are stored into L / U when the permuted row index is %s the permuted column index, but the profile (ptr) is never raised in that case: '
                                                     'the entry overwrites a slot of another row / column' % ' / '.join(missing or ['?']))
